@@ -269,6 +269,24 @@ func run(c *h.Ctx, cs Case) {
 			}
 		}
 	}
+	// a value that is itself a stored ciphertext under the SAME key (an entry forwarded from another token, a blob kept
+	// in a blob): it is a byte string like any other - sealed, and returned as it was given
+	if inner, err := m.GetBytes("secret"); err == nil && len(inner) > 0 {
+		nm := meta.NewMeta()
+		if err := nm.AddEncrypted("outer", inner, cs.Key); err != nil {
+			c.Fail("C19/nested/add-fails", "AddEncrypted refuses a %d-byte value that happens to be a ciphertext under the same key: %v", len(inner), err)
+		} else {
+			stored, _ := nm.GetBytes("outer")
+			if bytes.Equal(stored, inner) || (len(inner) >= 16 && bytes.Contains(stored, inner[:16])) {
+				c.Fail("C19/nested/stored-in-clear", "a value that is a ciphertext under the same key was stored as it is (%d bytes): not sealed", len(stored))
+			}
+			back, gerr := nm.GetEncryptedBytes("outer", cs.Key)
+			if gerr != nil || !bytes.Equal(back, inner) {
+				c.Fail("C19/nested/roundtrip", "the %d-byte value given to AddEncrypted (itself a ciphertext under the same key) comes back as %d bytes / %v", len(inner), len(back), gerr)
+			}
+		}
+		c.P.Class("nested-ciphertext")
+	}
 	if err := m.AddEncrypted("n", 42, cs.Key); err == nil {
 		c.Fail("C19/non-encryptable-accepted", "AddEncrypted accepted an int")
 	}
